@@ -16,7 +16,9 @@ from vf.core import Mismatch, Sub, HarnessError, case_hash
 from evo import main_config, entry_points
 from evo.tools import settings as evo_settings
 from evo.tools.settings import SettingsContainer, SettingsException
-from evo.tools.settings_template import DEFAULT_SETTINGS_DICT
+from evo.tools.settings_template import DEFAULT_SETTINGS_DICT as _EVO_DEFAULTS
+# an own deep copy taken at import time: evo code that pollutes its module-level defaults must not pollute the oracle
+DEFAULT_SETTINGS_DICT = copy.deepcopy(_EVO_DEFAULTS)
 
 PROPERTY = "C18"
 RULE = ("(a) rule-based state machine (Hypothesis) on a scratch settings file: set(token lists mixing key names, ints, floats, "
